@@ -45,7 +45,7 @@ def model_chunked(d, items, tag):
     """items: (id, stream, sizes) -> {id: events text} computed by the extracted events_chunked"""
     inp, out = d / (tag + ".cin"), d / (tag + ".cmodel")
     inp.write_text("".join("%s\t%s\t%s\n" % (i, resplib.hexs(s), ",".join(map(str, z))) for i, s, z in items))
-    rc, log = lib.sh("%s chunked %s %s" % (lib.BUILD / resplib.RESPRUN, inp, out), cwd=d, timeout=1800)
+    rc, log = lib.sh(resplib.BIGSTACK + "exec %s chunked %s %s" % (lib.BUILD / resplib.RESPRUN, inp, out), cwd=d, timeout=1800, extra_env=resplib.OCAMLENV)
     if rc != 0:
         raise RuntimeError("resprun chunked failed: " + log[-800:])
     return {l.split("\t")[0]: l.split("\t")[1] for l in out.read_text().splitlines()}
@@ -108,10 +108,20 @@ def inproc_part(ctx, d):
         z = G.random_chunking(r, s)
         explicit.append(("x%d" % i, s, z))
         lines.append("x%d\t%s\tc:%s\t%d" % (i, resplib.hexs(s), ",".join(map(str, z)), ctx.seed))
+    # length boundaries: big arguments whose payload ends at / next to the places where a reader
+    # that works in pieces (bufio's 4096 bytes, 2^15, 2^16, powers of two) hands over
+    nb = 0
+    for cid, s, spec, _, _ in G.boundary_cases(r, ctx.tier):
+        lines.append("%s\t%s\t%s\t%d" % (cid, resplib.hexs(s), spec, ctx.seed))
+        nb += 1
+        if len(s) < 70000 and nb % 3 == 0:      # some of them also through the extracted events_chunked
+            z = [int(x) for x in spec.split("|")[-1][1:].split(",")]
+            explicit.append((cid + "c", s, z))
+            lines.append("%sc\t%s\tc:%s\t%d" % (cid, resplib.hexs(s), ",".join(map(str, z)), ctx.seed))
     impl, mod = run_inproc(d, lines, "main")
     cmod = model_chunked(d, explicit, "main")
     st = dict(streams=len(lines), evaluations=0, nontrivial=set(), shapes=set(), kinds=collections.Counter(),
-              exhaustive_small=sum(1 for l in lines if l.startswith("e")), explicit_chunkings=len(explicit),
+              exhaustive_small=sum(1 for l in lines if l.startswith("e")), explicit_chunkings=len(explicit), length_boundary_streams=nb,
               lines=lines, mod=mod)
     candidates = []
     for l in lines:
@@ -237,7 +247,7 @@ def judge_tcp(case, res, dec, pdec):
     if res["witness"] != "WOK":
         return dict(what="another (long-lived) connection stopped working", witness=res["witness"])
     if m["expect_list"] is not None:
-        want = "A[" + ",".join("b:" + x.hex() for x in m["expect_list"]) + "]"
+        want = "A[" + ",".join("b:" + (x.decode() if x.startswith(b"#") and len(x) > 18 else resplib.digest(x)) for x in m["expect_list"]) + "]"
         got, pleft = pdec
         if pleft or got != [want]:
             return dict(what="keyspace after the stream differs: commands after the protocol error were executed (or earlier ones lost)",
@@ -299,15 +309,26 @@ def tcp_part(ctx, d, inproc_stats):
         for _ in range(r.randrange(1, 4)):
             s = G.mutate(r, s)
         raw.append(("tx%d" % i, s, None))
+    for i, n in enumerate([32766, 32767, 32768, 32769, 65535, 65536, 98304, 131072] + ([1048576] if ctx.tier == "quick" else [262144, 1048575, 1048576, 2097152])):
+        for e in (b"\r\n", b"z"):
+            tag = hashlib.sha1(b"tb%d-%d-%d" % (ctx.seed, n, e[0])).hexdigest()[:16].encode()
+            key = b"tb" + tag + b":log"
+            val = G.boundary_payload(r, n, e)
+            raw.append(("tb%d_%d" % (n, e[0]), G.encode_pipeline([[b"RPUSH", key, b"m0"], [b"RPUSH", key, val], [b"RPUSH", key, b"m1"], [b"PING"]]), key))
     pool = [l for l in inproc_stats["lines"] if l[0] in "esgm"]
     for i, l in enumerate(r.sample(pool, min(ns, len(pool)))):
         raw.append(("ts%d" % i, resplib.unhex(l.split("\t")[1]), None))
-    raw = [x for x in raw if x[1] and not G.big_alloc(x[1]) and len(x[1]) < 200000]
+    raw = [x for x in raw if x[1] and (x[0].startswith("tb") or (not G.big_alloc(x[1]) and len(x[1]) < 200000))]
     mod = resplib.model_events(d, [(i, s) for i, s, _ in raw], tag="tcpm")
     cases, skipped = [], 0
     for cid, s, key in raw:
-        sizes = G.random_chunking(r, s)
-        pause = r.choice([0, 0, 1, 2, 5]) if len(sizes) < 800 else 0
+        if cid.startswith("tb"):      # big argument: whole, or in pieces of the sizes readers work with
+            k = r.choice([0, 4096, 32768, 32767, 65536, 1000])
+            sizes = "one" if k == 0 else [k] * (len(s) // k + 1)
+            pause = 0
+        else:
+            sizes = G.random_chunking(r, s)
+            pause = r.choice([0, 0, 1, 2, 5]) if len(sizes) < 800 else 0
         c = plan_case(cid, s, sizes, pause, mod[cid], registered, key)
         if c is None:
             skipped += 1
@@ -516,6 +537,7 @@ def run(ctx):
         stream_kinds=dict(ist["kinds"]) if ist else {},
         tcp={k: (dict(v) if isinstance(v, collections.Counter) else v) for k, v in tst.items()},
         inproc_unreproduced_discrepancies=ist.get("unreproduced_discrepancies", []) if ist else [],
+        length_boundary_streams=ist.get("length_boundary_streams", 0) if ist else 0,
         samples=samples or ["(none)"],
         exhaustive=False,
         correspondence="resp.ParseStream (chunked io.Reader) vs extracted events/events_chunked, event for event; real server over TCP vs extracted handle: reply count, self-close on error, keyspace effect, liveness",
